@@ -312,6 +312,10 @@ func (g *gen) writeExprBinaryOp(b *buffer, n *a.Expr, depth uint32) error {
 		}
 		b.printf("wuffs_base__u%d__sat_%s", uBits, uOp)
 		opName = ", "
+		// The C function's result already has the right type. Casting (which
+		// applies to the parenthesized "(lhs, rhs)" below) would turn the two
+		// arguments into one comma expression.
+		overallCast = false
 
 	case t.IDXBinaryAs:
 		return g.writeExprAs(b, n.LHS().AsExpr(), n.RHS().AsTypeExpr(), depth)
